@@ -22,6 +22,7 @@ class ClassInfo:
     methods: dict[str, ast.FunctionDef] = field(default_factory=dict)
     fields: list[tuple[str, str]] = field(default_factory=list)      # annotated class-level fields (dataclass order)
     decorators: list[str] = field(default_factory=list)
+    virtual: list[str] = field(default_factory=list)                   # methods synthesised from a self-dispatching base-class method
 
 
 @dataclass
@@ -65,6 +66,150 @@ class PyRepo:
         from . import pyeval
         pyeval.register_match_fields({c.name: [n for n, _t in c.fields] for m in self.modules.values() for c in m.classes.values()
                                       if any(d.startswith('dataclass') for d in c.decorators)})
+        self._specialise_self_dispatch()
+
+    def _specialise_self_dispatch(self) -> None:
+        """A base-class method written as one dispatch over the class of `self` (`match self: case C(..)` / `if isinstance(self, C)`)
+        is, for each subclass that does not override it, the method consisting of that subclass's arm.  Such arms are added to the
+        subclass as (synthesised) methods, so that every rule that reads `C.m` sees the same code whether the project spells it as
+        an override per class or as one dispatch in the base class.  `ClassInfo.virtual` lists the synthesised names."""
+        import copy
+        for mi in self.modules.values():
+            for ci in mi.classes.values():
+                chain = self.mro(ci)
+                for base in chain[1:]:
+                    for mname, fn in base.methods.items():
+                        if mname in ci.methods or mname.startswith('__') or not fn.args.args:
+                            continue
+                        if any(mname in c.methods for c in chain[1:chain.index(base)]):
+                            continue
+                        selfname = fn.args.args[0].arg
+                        dispatches = any((isinstance(n, ast.Match) and ast.unparse(n.subject) == selfname) or
+                                         (isinstance(n, ast.Call) and isinstance(n.func, ast.Name) and n.func.id == 'isinstance' and n.args
+                                          and ast.unparse(n.args[0]) == selfname) for n in ast.walk(fn))
+                        if not dispatches:
+                            continue
+                        body = self._arm_for(fn.body, selfname, ci, chain)
+                        if body is None:
+                            continue
+                        g = copy.copy(fn)
+                        g.body = body or [ast.copy_location(ast.Pass(), fn)]
+                        ci.methods[mname] = ast.fix_missing_locations(g)
+                        ci.virtual.append(mname)
+
+    def _arm_for(self, body, selfname: str, ci: ClassInfo, chain):
+        """the statements of a self-dispatching method that run when self is exactly an instance of `ci`; None if undecidable"""
+        import copy
+        names = {c.name for c in chain}
+        all_classes = {c.name for m in self.modules.values() for c in m.classes.values()}
+
+        def is_inst(cls_expr):
+            """True / False / None for isinstance(self, cls_expr)"""
+            elts = cls_expr.elts if isinstance(cls_expr, ast.Tuple) else [cls_expr]
+            ns = [ast.unparse(e).split('.')[-1] for e in elts]
+            if any(n in names for n in ns):
+                return True
+            if all(n in all_classes for n in ns):
+                # unrelated package classes: false unless one of them is a subclass of ci (self could be that subclass)
+                for n in ns:
+                    c2 = self.find_class(n, ci.module)
+                    if c2 is not None and any(x.name == ci.name for x in self.mro(c2)):
+                        return None
+                return False
+            return None
+
+        def val(t):
+            if isinstance(t, ast.UnaryOp) and isinstance(t.op, ast.Not):
+                v = val(t.operand)
+                return None if v is None else not v
+            if isinstance(t, ast.Call) and isinstance(t.func, ast.Name) and t.func.id == 'isinstance' and len(t.args) == 2 \
+                    and ast.unparse(t.args[0]) == selfname:
+                return is_inst(t.args[1])
+            if isinstance(t, ast.BoolOp):
+                vs = [val(x) for x in t.values]
+                if isinstance(t.op, ast.And):
+                    return False if any(v is False for v in vs) else (True if all(v is True for v in vs) else None)
+                return True if any(v is True for v in vs) else (False if all(v is False for v in vs) else None)
+            return None
+
+        def case_matches(pat):
+            """-> (True/False/None, bindings) for one case pattern"""
+            if isinstance(pat, ast.MatchOr):
+                undecided = False
+                for sub in pat.patterns:
+                    m, b = case_matches(sub)
+                    if m is True:
+                        return True, b
+                    if m is None:
+                        undecided = True
+                return (None if undecided else False), []
+            if isinstance(pat, ast.MatchAs) and pat.pattern is None:
+                return True, ([] if pat.name is None else [(pat.name, ast.Name(id=selfname, ctx=ast.Load()))])
+            if isinstance(pat, ast.MatchClass):
+                m = is_inst(pat.cls)
+                if m is not True:
+                    return m, []
+                cls = self.find_class(ast.unparse(pat.cls).split('.')[-1], ci.module)
+                flds = [n for n, _t in (cls.fields if cls is not None else [])]
+                binds = []
+                for i, sp in enumerate(pat.patterns):
+                    if not (isinstance(sp, ast.MatchAs) and sp.pattern is None):
+                        return None, []
+                    if sp.name is not None:
+                        if i >= len(flds):
+                            return None, []
+                        binds.append((sp.name, ast.Attribute(value=ast.Name(id=selfname, ctx=ast.Load()), attr=flds[i], ctx=ast.Load())))
+                for kw, sp in zip(pat.kwd_attrs, pat.kwd_patterns):
+                    if not (isinstance(sp, ast.MatchAs) and sp.pattern is None):
+                        return None, []
+                    if sp.name is not None:
+                        binds.append((sp.name, ast.Attribute(value=ast.Name(id=selfname, ctx=ast.Load()), attr=kw, ctx=ast.Load())))
+                return True, binds
+            return None, []
+
+        def go(stmts):
+            out = []
+            for st in stmts:
+                if isinstance(st, ast.Match) and ast.unparse(st.subject) == selfname:
+                    taken = None
+                    for case in st.cases:
+                        m, binds = case_matches(case.pattern)
+                        if m is None or (m is True and case.guard is not None):
+                            return None
+                        if m is True:
+                            taken = [ast.Assign(targets=[ast.Name(id=n, ctx=ast.Store())], value=v, lineno=case.body[0].lineno,
+                                                col_offset=0) for n, v in binds] + list(case.body)
+                            break
+                    if taken is not None:
+                        sub = go(taken)
+                        if sub is None:
+                            return None
+                        out.extend(sub)
+                        if sub and isinstance(sub[-1], (ast.Return, ast.Raise)):
+                            return out
+                    continue
+                if isinstance(st, ast.If):
+                    v = val(st.test)
+                    if v is None:
+                        a, b = go(st.body), go(st.orelse)
+                        if a is None or b is None:
+                            return None
+                        node = copy.copy(st)
+                        node.body, node.orelse = a or [ast.copy_location(ast.Pass(), st)], b
+                        out.append(node)
+                        continue
+                    sub = go(st.body if v else st.orelse)
+                    if sub is None:
+                        return None
+                    out.extend(sub)
+                    if sub and isinstance(sub[-1], (ast.Return, ast.Raise)):
+                        return out
+                    continue
+                out.append(st)
+                if isinstance(st, (ast.Return, ast.Raise)):
+                    return out
+            return out
+        return go(list(body))
 
     @classmethod
     def get(cls, root: str | None = None) -> 'PyRepo':
@@ -259,14 +404,14 @@ class PyRepo:
                     yield mname, f'{c.name}.{f.name}', f, c
 
 
-def self_method_resolver(py: 'PyRepo', ci: ClassInfo, self_value, exclude: tuple = ()):
+def self_method_resolver(py: 'PyRepo', ci: ClassInfo, self_value, exclude: tuple = (), only_private: bool = False):
     """PyEval resolver for `self.<helper>(..)` inside methods of `ci`: the helper is looked up through the MRO and evaluated in place
     (static methods without a receiver, class methods with the class); properties and the excluded names stay opaque."""
     def resolver(call, env, _ev):
         f = call.func
         if not (isinstance(f, ast.Attribute) and isinstance(f.value, ast.Name) and env.get(f.value.id) == self_value):
             return None
-        if f.attr in exclude:
+        if f.attr in exclude or (only_private and not (f.attr.startswith('_') and not f.attr.startswith('__'))):
             return None
         hit = py.find_method(ci, f.attr)
         if hit is None:
